@@ -182,6 +182,11 @@ def replay(hist, vpc, universe, variant, pooling):
             discover([], "token")
         elif c is None:
             continue
+        elif step[0] == "peerclose":
+            # the node goes away for good and tears its connections down (the client is idle: it notices nothing)
+            for sk in w.net.open_sockets():
+                if sk.conn is not None and sk.conn.server is w.nodes[step[1]]:
+                    sk.conn.peer_closed = True
         elif step[0] == "handadd":
             # the application adds a node by hand (port as an int), under the spelling the client itself would use
             n_ = node(step[1])
@@ -314,6 +319,10 @@ CHECK_DEADLOCK FALSE
                 hist = [["reconf", a], ["evict", victim], ["reconf", b], ["revive", 0], ["traffic", b[0]], ["revive", 0], ["reconf", b],
                         ["revive", 0]]
                 traces.append(replay(hist, vpc, 6, len(traces), pooling=False))
+    # a node that has torn down its connections is then dropped from the cluster: its connection is closed like any other
+    for vpc in (True, False):
+        for (a, x, b) in (([1, 2, 3], 3, [1, 2]), ([1, 2], 1, [2, 3]), ([2], 2, [1])):
+            traces.append(replay([["reconf", a], ["traffic", x], ["peerclose", x], ["reconf", b], ["reconf", b]], vpc, 6, len(traces), pooling=False))
     # a node evicted by failover while the advertised list stays the same: the next reconfiguration puts it back
     for vpc in (True, False):
         for a in ([1, 2, 3], [2, 1], [4]):
